@@ -10,11 +10,11 @@ trap 'rm -rf "$SCR"' EXIT
 rsync -a --exclude .git /repo/ "$SCR"/
 cd "$SCR" || exit 2
 cat "$D/demo.rs" >> src/lib.rs
-CARGO_NET_OFFLINE=true cargo test --offline --lib "$MOD" -- --test-threads 1 > "$SCR/base.log" 2>&1
+CARGO_NET_OFFLINE=true cargo test --offline ${CONFIRM_CARGO_ARGS:-} --lib "$MOD" -- --test-threads 1 > "$SCR/base.log" 2>&1
 B=$?
 git init -q . 2>/dev/null
 patch -p1 -s < "$D/patch.diff" || { echo "patch failed"; exit 2; }
-CARGO_NET_OFFLINE=true cargo test --offline --lib "$MOD" -- --test-threads 1 > "$SCR/mut.log" 2>&1
+CARGO_NET_OFFLINE=true cargo test --offline ${CONFIRM_CARGO_ARGS:-} --lib "$MOD" -- --test-threads 1 > "$SCR/mut.log" 2>&1
 M=$?
 echo "demo module $MOD: unmodified exit=$B ($(grep -E '^test result' "$SCR/base.log" | tail -1)) ; with change exit=$M ($(grep -E '^test result' "$SCR/mut.log" | tail -1))"
 [ $B -eq 0 ] && [ $M -ne 0 ]
